@@ -464,7 +464,14 @@ pub fn replay_fix(args: &[String]) -> Value {
                 std::fs::write(progress, format!("{}\n{}", ci, txt)).ok();
                 let exp: Vec<u8> = c[key][i].as_array().expect("tt").iter().map(|b| b.as_u64().expect("bit") as u8).collect();
                 evals += 1;
-                let got = match parse(&txt, None) {
+                // the variable order is varied: default (first appearance), the specification's name order,
+                // and its reverse (as an explicit ordering with non-contiguous ids)
+                let ordering = match r.gen_range(0..3) {
+                    0 => None,
+                    1 => Some(names.iter().enumerate().map(|(k, n)| NamedSymbol { name: Rc::new(n.clone()), id: 2 + 5 * k }).collect::<Vec<_>>()),
+                    _ => Some(names.iter().rev().enumerate().map(|(k, n)| NamedSymbol { name: Rc::new(n.clone()), id: 1 + 3 * k }).collect::<Vec<_>>()),
+                };
+                let got = match parse(&txt, ordering) {
                     Ok(Ok(pf)) => guarded(|| pf.eval()).map(|b| truth_table(&b, &names)),
                     Ok(Err(e)) => Err(format!("rejected: {}", e)),
                     Err(m) => Err(m),
